@@ -54,12 +54,21 @@ def make_case(header, body, sched):
     return {"id": 0, "lines": ["case 0 " + header] + body + ["sched " + " ".join(map(str, sched)), "end"]}
 
 
+def goes_through_result_of(header):
+    """adapters that start the operation with future<T>::result_of (`_fut << factory`): a throwing factory is caught there"""
+    return header.split()[1] in ("conv", "callfn")
+
+
 def timing_bodies(rng, header):
     """one random scenario body (thread lines + pre/imm) for the adapter of `header`"""
     is_mk = header.split()[1] == "mkprom"
-    modes = ["conc", "conc", "conc", "self", "dtor"] + ([] if is_mk else ["pre", "imm"])
+    modes = ["conc", "conc", "conc", "self", "dtor"] + ([] if is_mk else ["pre", "imm"]) + (["fthrow"] if goes_through_result_of(header) else [])
     mode = rng.choice(modes)
     body, k = [], 0
+    if mode == "fthrow":
+        body.append("g" if rng.random() < 0.7 else "g self " + rk_words(rng.choice(RKINDS), 9))
+        body.append("fthrow %d" % rng.randint(1, 9))
+        return mode, body
     if mode == "imm":
         body.append("g" if rng.random() < 0.7 else "g self " + rk_words(rng.choice(RKINDS), 9))
         body.append("imm " + rk_words(rng.choice(RKINDS), 0))
@@ -118,6 +127,9 @@ def gen_sequential():
             if not is_mk:
                 cases.append(make_case(header, ["g", "pre " + rk_words(k, j)], []))
                 cases.append(make_case(header, ["g", "imm " + rk_words(k, j)], []))
+        if goes_through_result_of(header):
+            cases.append(make_case(header, ["g", "fthrow 6"], []))
+            cases.append(make_case(header, ["g self value 3", "fthrow 7"], []))
         cases.append(make_case(header, ["g"], []))
     return cases
 
@@ -158,12 +170,16 @@ def make_multi(header, rounds):
 
 # helpers that are member objects re-armed with `<<` for one operation after the other (same awaiter node every time)
 REUSABLE = [h for h in HEADERS if h.split()[1] in ("conv", "callfn", "callawt")]
-SEQ_TIMINGS = ["pre", "imm", "self", "other", "destroyed"]
+SEQ_TIMINGS = ["pre", "imm", "self", "other", "destroyed", "fthrow"]
 
 
-def seq_round(timing, kind, n):
+def seq_round(timing, kind, n, header=None):
     """one operation with a sequential (single effective thread order) timing"""
     w = rk_words(kind, n)
+    if timing == "fthrow":
+        if header is not None and goes_through_result_of(header):
+            return (["g", "fthrow %d" % (n + 4)], [])
+        timing, w = "imm", rk_words("exc", n)
     if timing == "pre":
         return (["g", "pre " + w], [])
     if timing == "imm":
@@ -182,10 +198,10 @@ def gen_reuse_sequential(headers, rng, triples=4):
         for t1 in SEQ_TIMINGS:
             for t2 in SEQ_TIMINGS:
                 n += 1
-                cases.append(make_multi(header, [seq_round(t1, RKINDS[n % 3], 1), seq_round(t2, RKINDS[(n // 3) % 3], 2)]))
+                cases.append(make_multi(header, [seq_round(t1, RKINDS[n % 3], 1, header), seq_round(t2, RKINDS[(n // 3) % 3], 2, header)]))
         for _ in range(triples):
             ts = [rng.choice(SEQ_TIMINGS) for _ in range(3)]
-            cases.append(make_multi(header, [seq_round(t, rng.choice(RKINDS), j) for j, t in enumerate(ts)]))
+            cases.append(make_multi(header, [seq_round(t, rng.choice(RKINDS), j, header) for j, t in enumerate(ts)]))
     return cases
 
 
@@ -210,7 +226,7 @@ def gen_reuse_exhaustive(headers, length):
         for j, t1 in enumerate(SEQ_TIMINGS):
             for k in RKINDS:
                 for bits in itertools.product([0, 1], repeat=length):
-                    cases.append(make_multi(header, [seq_round(t1, RKINDS[j % 3], 1), (["g", "r " + rk_words(k, 2)], list(bits))]))
+                    cases.append(make_multi(header, [seq_round(t1, RKINDS[j % 3], 1, header), (["g", "r " + rk_words(k, 2)], list(bits))]))
     return cases
 
 
@@ -249,7 +265,9 @@ def valid_round(i):
         return False
     if i["pre"] and i["imm"]:
         return False
-    if i["imm"] and len(th) > 1:
+    if (i["imm"] or i["fthrow"]) and len(th) > 1:
+        return False
+    if i["fthrow"] and (i["pre"] or i["imm"] or i["adapter"] not in ("conv", "callfn")):
         return False
     if i["adapter"] == "mkprom" and (i["pre"] or i["imm"]):
         return False
@@ -289,13 +307,15 @@ def parse(case, out):
     info = {"adapter": hdr[3], "T": hdr[4], "alloc": hdr[5], "shape": hdr[6] if len(hdr) > 6 else None,
             "to": hdr[7] if len(hdr) > 7 else None, "behav": hdr[8] if len(hdr) > 8 else None,
             "threads": [l.split() for l in case["lines"][1:] if l.split()[0] in ("g", "r", "d")],
-            "pre": None, "imm": None, "cb": [], "conv": [], "events": [], "rets": {}, "outer": None, "final": None,
+            "pre": None, "imm": None, "fthrow": None, "cb": [], "conv": [], "events": [], "rets": {}, "outer": None, "final": None,
             "deadlock": False, "crash": False, "assert": None, "ops": [], "cbthrow": False, "read": None,
             "coro": False, "dead_arg": 0, "caller_cont": 0}
     for l in case["lines"][1:]:
         w = l.split()
         if w[0] in ("pre", "imm"):
             info[w[0]] = w[1:]
+        elif w[0] == "fthrow":
+            info["fthrow"] = ["exc", w[1]]
         elif w[0] == "cbthrow":
             info["cbthrow"] = True
         elif w[0] == "read":
@@ -357,6 +377,8 @@ def source_outcome(i):
         return i["pre"]
     if i["imm"]:
         return i["imm"]
+    if i["fthrow"]:
+        return i["fthrow"]     # the factory threw: the operation is resolved with that exception at its start
     return ["drop"]
 
 
@@ -405,7 +427,7 @@ class CallbackSuite(Suite):
                 flat.append((oc, oo or []))
                 pi = parse(oc, oo or [])
                 slot0 = [w for w in pi["ops"] if w[1] == "0" and len(w) > 3 and w[3] == "slot"]
-                seq.append("already-resolved" if (pi["pre"] or pi["imm"] or any(w[2] == "cas-" for w in slot0)) else "parked")
+                seq.append("already-resolved" if (pi["pre"] or pi["imm"] or pi["fthrow"] or any(w[2] == "cas-" for w in slot0)) else "parked")
             if len(ops) > 1:
                 for a, b in zip(seq, seq[1:]):
                     pairs[a + " -> " + b] = pairs.get(a + " -> " + b, 0) + 1
@@ -420,7 +442,7 @@ class CallbackSuite(Suite):
             adapters[a] = adapters.get(a, 0) + 1
             alloc[i["alloc"]] = alloc.get(i["alloc"], 0) + 1
             g = i["threads"][0] if i["threads"] else ["g"]
-            tm = "imm" if i["imm"] else "pre" if i["pre"] else "self" if len(g) > 1 else "other-thread"
+            tm = "factory-throws(result_of catch)" if i["fthrow"] else "imm" if i["imm"] else "pre" if i["pre"] else "self" if len(g) > 1 else "other-thread"
             if tm == "other-thread" and not any(t[0] == "r" for t in i["threads"]):
                 tm = "destroyed"
             timing[tm] = timing.get(tm, 0) + 1
